@@ -175,6 +175,13 @@ int main(int argc, char **argv)
 			const Presence& pr(m->get_fp().get_presence());
 			Presence::const_iterator it(pr.find(static_cast<unsigned short>(tag)));
 			if ((it != pr.end()) != has) { out("has-differs-from-find"); delete m; continue; }
+			// the non-const lookup paths (FieldTraits::set / clear, used by MessageBase::set, remove, replace)
+			FieldTraits& fp(const_cast<FieldTraits&>(m->get_fp()));
+			fp.set(static_cast<unsigned short>(tag), FieldTrait::present);
+			const bool after_set(m->get_fp().get(static_cast<unsigned short>(tag), FieldTrait::present));
+			fp.clear(static_cast<unsigned short>(tag), FieldTrait::present);
+			const bool after_clear(m->get_fp().get(static_cast<unsigned short>(tag), FieldTrait::present));
+			if (after_set != has || after_clear) { out(after_set != has ? "set-differs-from-has" : "clear-has-no-effect"); delete m; continue; }
 			os << "has=" << (has ? 1 : 0) << " pos=" << (has ? int(it->_fnum) : 0);
 			delete m;
 		}
